@@ -37,6 +37,29 @@ pub mod verif_spec_key {
         seq![0xb7u8, 0x9b, 0x3e, 0x2a, 0x87, 0x82, 0x3c, 0xab, 0x8f, 0x5e, 0xbf, 0xbf, 0x8e, 0xb1, 0x01, 0x08,
              0x53, 0x50, 0x06, 0x29, 0x8b, 0x5b, 0xad, 0xbd, 0x5b, 0x53, 0xe1, 0x89, 0x5e, 0x64, 0x4b, 0x89]
     }
+    /// N as an integer
+    pub open spec fn big_n() -> int { le_val(n_le()) }
+    /// Facts about N used throughout: 0 < N < 2^256 and 2 N >= 2^256 (C04: "2N does not fit in 32 bytes")
+    pub proof fn lemma_big_n()
+        ensures 0 < big_n() < pow256(32), 2 * big_n() >= pow256(32), n_le().len() == 32,
+                big_n() == 0x894B645E89E1535BBDAD5B8B290650530801B18EBFBF5E8FAB3C82872A3E9BB7int,
+    {
+        lemma_le_val_bounds(n_le());
+        assert(big_n() == 0x894B645E89E1535BBDAD5B8B290650530801B18EBFBF5E8FAB3C82872A3E9BB7int) by(compute);
+        lemma_pow256_32();
+    }
+    /// a value in [0, N) is an acceptable public key iff it is not zero
+    pub proof fn lemma_pk_valid_below_n(v: int)
+        requires 0 <= v < big_n()
+        ensures pk_valid(le_bytes(v, 32)) == (v != 0)
+    {
+        lemma_big_n();
+        lemma_le_bytes_zero_iff(v, 32);
+        lemma_le_val_le_bytes(v, 32);
+        if le_bytes(v, 32) == n_le() { assert(le_val(le_bytes(v, 32)) == big_n()); }
+    }
+    /// C04: a 32-byte public key is acceptable iff it is neither zero nor N itself
+    pub open spec fn pk_valid(key: Seq<u8>) -> bool { key != zeros(32) && key != n_le() }
     /// the normalised text as bytes
     pub open spec fn ns_text(n: NormalizedString) -> Seq<u8> { n.s@.subrange(0, n.length as int) }
 }
